@@ -1,5 +1,5 @@
 #!/bin/bash
-# Builds the harness once (warms the Go build cache). Offline.
+# Builds the harness once (warms the Go build cache for all three build variants). Offline.
 set -e
 HERE="$(cd "$(dirname "$0")" && pwd)"
 export GOFLAGS=-mod=mod GOPROXY=off
@@ -7,4 +7,8 @@ mkdir -p "$HERE/bin" "$HERE/build" "$HERE/evidence"
 cd "$HERE/harness"
 cp /repo/go.sum go.sum
 go build -tags verif -o "$HERE/bin/check" ./cmd/check
+go build -o "$HERE/bin/instrument" ./cmd/instrument
+(cd /repo && "$HERE/bin/instrument" /repo "$HERE/build/sched" "$HERE/harness/vsched_src/vsched.go")
+go build -tags "verif sched" -overlay "$HERE/build/sched/overlay.json" -o "$HERE/bin/check-sched" ./cmd/check
+go build -race -tags "verif sched" -overlay "$HERE/build/sched/overlay.json" -o "$HERE/bin/check-race" ./cmd/check
 echo "setup ok"
